@@ -3,7 +3,8 @@ import LlgoVerif.Util
 import LlgoVerif.Model.Chan
 /-! Line-protocol driver for C10 (channels under a controllable scheduler).
 
-    reset | chan <cap> | thread <op>…      configuration (answers `ok`)
+    reset | variant current|fixed | chan <cap> | thread <op>…      configuration (answers `ok`); the variant
+                                           (which z_chan.go the model mirrors, see `Cfg`) survives `reset`
       op:  s<c>:<v>  r<c>  c<c>  S:b:<cases>  S:n:<cases>     cases: `-` or `,`-separated  s<c>=<v> | r<c>
     step <t> | wake <t>                    one scheduler choice; answers the observable state or `bad-step`
     prio <t>,<t>,… | auto                  `auto` steps the first runnable thread of the priority list
@@ -13,12 +14,13 @@ import LlgoVerif.Model.Chan
 open LlgoVerif LlgoVerif.Util LlgoVerif.Chan
 
 instance : Inhabited Choice := ⟨.step 0⟩
-instance : Inhabited State := ⟨init [] []⟩
+instance : Inhabited State := ⟨init .current [] []⟩
 
 structure D where
   caps : List Nat := []
   progs : List (List Op) := []
-  cur : State := init [] []
+  cur : State := init .current [] []
+  cfg : Cfg := .current
   prio : List Nat := []
 
 def parseCase (s : String) : Option Case :=
@@ -132,14 +134,18 @@ def explore (s0 : State) (maxStates : Nat) (wakes : Bool) : String := Id.run do
 
 def handle (d : D) (line : String) : D × String :=
   match fields line with
-  | ["reset"] => ({}, "ok")
+  | ["reset"] => ({ cfg := d.cfg }, "ok")
+  | ["variant", v] =>
+    if v == "current" then ({ d with cfg := .current, cur := init .current d.caps d.progs }, "ok")
+    else if v == "fixed" then ({ d with cfg := .fixed, cur := init .fixed d.caps d.progs }, "ok")
+    else (d, "bad-op")
   | ["chan", n] =>
     match n.toNat? with
-    | some n => let caps := d.caps ++ [n]; ({ d with caps := caps, cur := init caps d.progs }, "ok")
+    | some n => let caps := d.caps ++ [n]; ({ d with caps := caps, cur := init d.cfg caps d.progs }, "ok")
     | none => (d, "bad-op")
   | "thread" :: toks =>
     match toks.mapM parseOp with
-    | some ops => let progs := d.progs ++ [ops]; ({ d with progs := progs, cur := init d.caps progs }, "ok")
+    | some ops => let progs := d.progs ++ [ops]; ({ d with progs := progs, cur := init d.cfg d.caps progs }, "ok")
     | none => (d, "bad-op")
   | ["step", t] =>
     match t.toNat? with
